@@ -237,6 +237,9 @@ func (h *handle) WriteAt(p []byte, off int64) (int, error) {
 		return 0, os.ErrClosed
 	}
 	f := h.f
+	if off < 0 {
+		return 0, errors.New("sym: negative offset")
+	}
 	end := int(off) + len(p)
 	failed := h.fs.W.fault("write")
 	if end > len(f.data) {
@@ -275,7 +278,10 @@ func (h *handle) ReadAt(p []byte, off int64) (int, error) {
 		return 0, ErrInjected
 	}
 	f := h.f
-	if int(off) >= len(f.data) {
+	if off < 0 {
+		return 0, errors.New("sym: negative offset") // as os.File.ReadAt
+	}
+	if off >= int64(len(f.data)) {
 		return 0, io.EOF
 	}
 	n := copy(p, f.data[off:])
